@@ -230,7 +230,14 @@ def profile_consume(rnd, tier):
             steps.append((c, (rnd.choice(['process', 'process', 'build']),), []))
         elif r < 0.7:
             t = rnd.choice(tags[c])
-            steps.append((c, ('cancel', t), [[(c, F('NCancelOk', 0, t))]]))
+            others = [x for x in tags[c] if x != t]
+            if others and rnd.random() < 0.4:
+                # the broker cancels another consumer of the channel while this call waits
+                o = rnd.choice(others)
+                steps.append((c, ('cancel', t), [[(c, F('NCancel', 0, o)), (c, F('NCancelOk', 0, t))]]))
+                tags[c].remove(o)
+            else:
+                steps.append((c, ('cancel', t), [[(c, F('NCancelOk', 0, t))]]))
             tags[c].remove(t)
         elif r < 0.8:
             t = rnd.choice(tags[c])
@@ -336,6 +343,15 @@ def profile_faults(rnd, tier):
     if confirm:
         steps.append((1, ('rpc', 3), [[(1, F('NSelectOk'))]]))
     tags = []
+    if rnd.random() < 0.3:
+        # a channel-level error is still queued (or the broker has closed a channel) when the
+        # transport dies: the connection error must win on that channel too
+        c0 = rnd.randrange(1, nchan + 1)
+        if rnd.random() < 0.5:
+            steps.append((c0, ('publish', True), []))
+            steps.append((c0, ('idle',), [g.returned(c0)]))
+        else:
+            steps.append((c0, ('idle',), [[(c0, F('NChClose', 404))]]))
     for i in range(n):
         c = rnd.randrange(1, nchan + 1)
         r = rnd.random()
